@@ -5,14 +5,16 @@
 set -u
 ID=$1; shift
 CHECKS=${*:-$ID}
+SEEDROOT=${SEEDROOT:-/tmp/seed}     # where the sub-agents left <ID>-out
+DEST=${DEST:-/verif/seeded}         # where confirmed seeds are kept
 export GOFLAGS=-mod=mod GOPROXY=off GOSUMDB=off GOTOOLCHAIN=local
-OUT=/tmp/seed/$ID-out
+OUT=$SEEDROOT/$ID-out
 W=/tmp/seedverify/$ID
-rm -rf $W; mkdir -p $W/with $W/without $W/tb /verif/seeded/$ID
+rm -rf $W; mkdir -p $W/with $W/without $W/tb $DEST/$ID
 git -C /repo archive HEAD | tar -x -C $W/with
 git -C /repo archive HEAD | tar -x -C $W/without
 ( cd $W/with && git init -q . >/dev/null 2>&1; patch -p1 -s < $OUT/patch.diff ) || { echo "PATCH FAILED"; exit 1; }
-cp $OUT/patch.diff /verif/seeded/$ID/patch.diff
+cp $OUT/patch.diff $DEST/$ID/patch.diff
 # demo files: *_test.go go to the package named in their path hint (first line comment "// pkg: store") or by package clause
 for f in $OUT/*_test.go; do
   [ -f "$f" ] || continue
@@ -22,11 +24,12 @@ for f in $OUT/*_test.go; do
     *_test) d=${pkg%_test};;
     *) d=store;;
   esac
-  cp $f $W/with/$d/; cp $f $W/without/$d/; cp $f /verif/seeded/$ID/
+  cp $f $W/with/$d/; cp $f $W/without/$d/; cp $f $DEST/$ID/
   echo "$d" > $W/demopkg
 done
 D=$(cat $W/demopkg 2>/dev/null || echo store)
-TESTNAME=$(grep -ho 'func Test[A-Za-z0-9_]*' $OUT/*_test.go 2>/dev/null | head -1 | sed 's/func //')
+TESTNAME=$(grep -ho 'func Test[A-Za-z0-9_]*' $OUT/*_test.go 2>/dev/null | sed 's/func //' | sort -u | paste -sd'|')
+TESTNAME="($TESTNAME)"
 echo "== demo: package $D test $TESTNAME"
 BASE=""
 [ "$D" = store ] && BASE="-args -base=$W/tb"
@@ -49,7 +52,7 @@ rm -rf ${VERIF_DIR:-/verif}/replays
 python3 - <<PY
 import json
 json.dump({"property": "$ID", "demo_package": "$D", "demo_test": "$TESTNAME", "demo_exit_with_change": $RW, "demo_exit_without_change": $RWO,
-  "suite_failures_with_change": $SUITE, "checks_run": "$RES".split(), "notes_file": "notes.md"}, open("/verif/seeded/$ID/verify.json","w"), indent=1)
+  "suite_failures_with_change": $SUITE, "checks_run": "$RES".split(), "notes_file": "notes.md"}, open("$DEST/$ID/verify.json","w"), indent=1)
 PY
-cp $OUT/notes.md /verif/seeded/$ID/notes.md 2>/dev/null
+cp $OUT/notes.md $DEST/$ID/notes.md 2>/dev/null
 rm -rf $W/with $W/without
